@@ -105,10 +105,13 @@ func (f *IPForwarder) Run(ctx context.Context) error {
 			continue
 		}
 
-		if packet.ErrorLayer() != nil {
+		// Only the IP header has to be well-formed. Whatever is carried above IP is
+		// payload to the gateway: gopacket not knowing an IP protocol number, or
+		// failing to decode the application protocol it guesses from a UDP port,
+		// must not cause the packet to be dropped.
+		if err := checkIPHeader(buf[:length], int(buf[0]>>4)); err != nil {
 			metrics.CounterInc(f.Metrics.IPPktsInvalid)
-			logger.Debug("forwarder: failed to parse packet",
-				"err", packet.ErrorLayer().Error())
+			logger.Debug("forwarder: failed to parse packet", "err", err)
 			continue
 		}
 
@@ -132,6 +135,16 @@ func (f *IPForwarder) Run(ctx context.Context) error {
 
 		session.Write(packet)
 	}
+}
+
+// checkIPHeader reports whether b starts with a well-formed IPv4 or IPv6 header.
+func checkIPHeader(b []byte, version int) error {
+	if version == 4 {
+		var ip layers.IPv4
+		return ip.DecodeFromBytes(b, gopacket.NilDecodeFeedback)
+	}
+	var ip layers.IPv6
+	return ip.DecodeFromBytes(b, gopacket.NilDecodeFeedback)
 }
 
 func (f *IPForwarder) validate() error {
